@@ -120,6 +120,29 @@ func c18Peers(t *testing.T) map[string]c18Peer {
 		t.Fatal(err)
 	}
 	out["e"] = c18Peer{id: edID, identity: ib}
+	// the mirror identity (x, -y) of every operator: a well-formed secp256k1 identity with the
+	// same X coordinate and another peer id; only ever used as inner identity
+	for _, name := range []string{"a", "b", "sx", "sy"} {
+		x := new(big.Int).SetBytes(out[name].opKey[1:33])
+		y := new(big.Int).SetBytes(out[name].opKey[33:65])
+		my := new(big.Int).Sub(DefaultCurve.Params().P, y)
+		npub, err := operatorPublicKeyToNetworkPublicKey(&operator.PublicKey{Curve: operator.Secp256k1, X: x, Y: my})
+		if err != nil {
+			t.Fatal(err)
+		}
+		mid, err := peer.IDFromPublicKey(npub)
+		if err != nil {
+			t.Fatal(err)
+		}
+		mib, err := (&identity{id: mid, pubKey: npub}).Marshal()
+		if err != nil {
+			t.Fatal(err)
+		}
+		if mid == out[name].id {
+			t.Fatalf("fixture: mirror of %s has the same peer id", name)
+		}
+		out["mirror:"+name] = c18Peer{id: mid, identity: mib, opKey: c18Uncompressed(x, my)}
+	}
 	return out
 }
 
@@ -131,15 +154,17 @@ func c18Build(t *testing.T, peers map[string]c18Peer, e kit.V, serial int) (*pub
 		payload = []byte(fmt.Sprintf("undecodable-%d", serial))
 	}
 	var sender []byte
-	switch in := e.Get("inner").Str(); in {
-	case "garbage":
-		sender = c18Truncated
-	case "badkey":
-		sender, _ = proto.Marshal(&pb.Identity{PubKey: []byte{1, 2, 3}})
-	case "empty":
-		sender = nil
-	default:
+	switch kind, in := e.Get("inner").Idx(0).Str(), e.Get("inner").Idx(1).Str(); {
+	case kind == "mirror":
+		sender = peers["mirror:"+in].identity
+	case kind == "peer":
 		sender = peers[in].identity
+	case in == "garbage":
+		sender = c18Truncated
+	case in == "badkey":
+		sender, _ = proto.Marshal(&pb.Identity{PubKey: []byte{1, 2, 3}})
+	default: // empty
+		sender = nil
 	}
 	tpe := c18Type
 	if e.Get("type").Str() == "unknown" {
@@ -207,14 +232,17 @@ func TestVerif_C18_Envelopes(t *testing.T) {
 				}
 				where := map[string]interface{}{"batch": c.Get("batch").X, "at": i + 1}
 				desc := fmt.Sprintf("envelope %d of %d {author %s, inner identity %s, type %s, payload %s, container %s}", i+1, len(batch),
-					e.Get("outer").Str(), e.Get("inner").Str(), e.Get("type").Str(), e.Get("payload").Str(), e.Get("container").Str())
+					e.Get("outer").Str(), e.Get("inner").Idx(0).Str()+" "+e.Get("inner").Idx(1).Str(), e.Get("type").Str(), e.Get("payload").Str(), e.Get("container").Str())
 				switch {
 				case want && (len(got) != 2 || extra != 0):
-					rep.Diverge("c18:lost:"+e.Get("inner").Str(), fmt.Sprintf("%s is well-formed and names its author, yet %d of 2 handlers received it (error: %v)", desc, len(got), err), where, "delivered", fmt.Sprint(err))
+					rep.Diverge("c18:lost:"+e.Get("inner").Idx(1).Str(), fmt.Sprintf("%s is well-formed and names its author, yet %d of 2 handlers received it (error: %v)", desc, len(got), err), where, "delivered", fmt.Sprint(err))
 				case !want && (len(got) != 0 || extra != 0):
 					what := fmt.Sprintf("%s must be dropped (%s) but was delivered", desc, verdicts[i])
 					if verdicts[i] == "mismatch" {
 						what += ": the message is attributed to an identity that is not the authenticated author"
+						if e.Get("inner").Idx(0).Str() == "mirror" && len(got) > 0 {
+							what += fmt.Sprintf(" (delivered as sent by %s, the mirror key (x, -y) of the author's key)", got[0].TransportSenderID())
+						}
 					}
 					rep.Diverge("c18:delivered:"+verdicts[i], what, where, verdicts[i], "delivered")
 				case want && err != nil:
